@@ -226,6 +226,9 @@ register(PropertySpec(
              "the supplied domain is wrapped in a filter isinstance(v, <runtime class parameter>), the Variable is built "
              "for that class over the filtered domain, and the runtime class (not the closure's decorated class) is "
              "threaded from __new__ down"),
+        Rule("NO-DOMAIN-MUTATION", history.rule_no_domain_mutation, 3,
+             "the From(...) object and the domain supplied by the caller are never modified (a From shared by two "
+             "variables must give each its own filtered view)"),
         Rule("FIELD-EQ", predform.rule_field_eq, 3,
              "properties_to_expression_tree builds one getattr(var, field) == value per given field, in symbolic mode, "
              "conjoined with AND"),
